@@ -143,24 +143,41 @@ func copiesMain() {
 // command queues, over buffers that have the same virtual addresses in both
 // address spaces but different contents.
 
-// xform kernel: out[gid] = in[gid] ^ tag  (then + gid)
+// walk kernel: every work-item reads one word of each of the P pages of the
+// input (stride 4096 bytes, so all wavefronts of both contexts walk over the
+// same virtual pages at about the same time) and stores the XOR, ^ tag, + gid.
+const walkPages = 32
+
 func xformKernel() *insts.KernelCodeObject {
 	a := &asm{}
 	a.smemLoad(2, 4, 0, 0)  // s_load_dwordx4 s[4:7], s[0:1], 0   in, out
 	a.smemLoad(0, 8, 0, 16) // s_load_dword s8, s[0:1], 16       tag
 	a.waitcnt(wLGK0)
 	a.sop2(28, 3, sgpr(2), konst(6))
-	a.vop2(25, 1, sgpr(3), 0)
+	a.vop2(25, 1, sgpr(3), 0)  // gid
+	a.sopk(0, 12, 1023)
+	a.vop2(19, 2, sgpr(12), 1) // gid & 1023
+	a.vop2(18, 2, konst(2), 2)
+	addr64(a, 3, 4) // &in[gid & 1023]
 	a.vop2(18, 2, konst(2), 1)
-	addr64(a, 3, 4)
-	a.flat(20, 3, 0, 5)
-	addr64(a, 6, 6)
-	a.waitcnt(wAll)
+	addr64(a, 6, 6) // &out[gid]
+	a.vop1(1, 5, konst(0))
+	a.sopk(0, 10, walkPages)
+	a.sopk(0, 11, 4096)
+	top := a.pc()
+	a.flat(20, 3, 0, 8)
+	a.waitcnt(wVM0)
+	a.vop2(21, 5, vsrc(8), 5)
+	a.vop2(25, 3, sgpr(11), 3)
+	a.vop2(28, 4, konst(0), 4)
+	a.sop2(1, 10, sgpr(10), konst(1))
+	a.sopc(7, sgpr(10), konst(0))
+	a.sopp(5, (top-(a.pc()+4))/4)
 	a.vop2(21, 5, sgpr(8), 5)
 	a.vop2(25, 5, vsrc(1), 5)
 	a.flat(28, 6, 5, 0)
 	a.sopp(1, 0)
-	return seqCodeObject("xform", a, 24)
+	return seqCodeObject("walk", a, 24)
 }
 
 type TwoCtxResult struct {
@@ -182,20 +199,23 @@ func twoctxMain() {
 	sim := buildPlatform(*platform)
 	d := sim.GetComponentByName("Driver").(*driver.Driver)
 	d.Run()
-	xf := xformKernel()
+	// one code object per context: the driver caches the device address of a code object per
+	// object, not per address space, so a second context would run whatever its own address
+	// space has at the first context's code address
 	var res []TwoCtxResult
 	for i := 0; i < *n; i++ {
-		r := TwoCtxResult{Index: i, Words: 1024 * (1 + rng.Intn(6)), Rounds: 1 + rng.Intn(3)}
+		// one launch per queue: a second round makes queue A issue a host copy that needs a cache flush while
+		// queue B's kernel is still running, and the timing platform then hangs (see docs/C02.md)
+		r := TwoCtxResult{Index: i, Words: 1024 * (2 + rng.Intn(3)), Rounds: 1}
+		xf := [2]*insts.KernelCodeObject{xformKernel(), xformKernel()}
 		var ctxs [2]*driver.Context
 		var qs [2]*driver.CommandQueue
 		var bufs [2][]driver.Ptr
 		for c := 0; c < 2; c++ {
 			ctxs[c] = d.Init() // a new PID with its own address space
 			d.SelectGPU(ctxs[c], 1)
-			for b := 0; b <= r.Rounds; b++ {
-				bufs[c] = append(bufs[c], d.AllocateMemory(ctxs[c], uint64(4*r.Words)))
-			}
-			in := make([]uint32, r.Words)
+			bufs[c] = append(bufs[c], d.AllocateMemory(ctxs[c], walkPages*4096), d.AllocateMemory(ctxs[c], uint64(4*r.Words)))
+			in := make([]uint32, walkPages*1024)
 			for j := range in {
 				in[j] = uint32(0x11110000*(c+1)) + uint32(j*3+i)
 			}
@@ -211,7 +231,7 @@ func twoctxMain() {
 		for round := 0; round < r.Rounds; round++ {
 			for c := 0; c < 2; c++ {
 				args := ReaderArgs{X: bufs[c][round], Out: bufs[c][round+1], KOff: uint32(0xA5A50000*(c+1)) + uint32(round)}
-				d.EnqueueLaunchKernel(qs[c], xf, [3]uint32{uint32(r.Words), 1, 1}, [3]uint16{64, 1, 1}, &args)
+				d.EnqueueLaunchKernel(qs[c], xf[c], [3]uint32{uint32(r.Words), 1, 1}, [3]uint16{64, 1, 1}, &args)
 			}
 		}
 		for c := 0; c < 2; c++ {
